@@ -427,11 +427,14 @@ class SymEngine:
             try:
                 fn(self)
                 self.stats.paths += 1
-                if len(self.samples) < self.sample_limit:
+                n = self.stats.paths
+                if len(self.samples) < self.sample_limit or n in (10, 100, 1000, 10000, 100000):
                     try:
-                        self.samples.append({"inputs_witness": self.witness(),
-                                             "choices": [list(c) for c in self.choice_log][:40],
-                                             "decisions": len(self.trace), "notes": dict(self.notes)})
+                        m = self._cur_model()
+                        self.samples.append({"inputs_witness": self.model_inputs(m),
+                                             "choices": [list(c) for c in self.choice_log],
+                                             "decisions": len(self.trace),
+                                             "notes": _concretize(dict(self.notes), m)})
                     except PathCut:
                         pass
             except PathCut:
@@ -466,6 +469,17 @@ class SymEngine:
             stack.extend(sib)
             n += 1
         return stack
+
+
+def _concretize(obj, m):
+    """Replace symbolic numbers inside a notes structure by their value in model m."""
+    if is_sym(obj):
+        return _pyval(m.eval(obj.t, model_completion=True))
+    if isinstance(obj, dict):
+        return {str(k): _concretize(v, m) for k, v in obj.items()}
+    if isinstance(obj, (list, tuple)):
+        return [_concretize(v, m) for v in obj]
+    return obj
 
 
 def _pyval(val):
